@@ -3,6 +3,7 @@ Structural clauses decided (DESIGN.md §5 C06): the RFC 4035 §5.3.1 conjunct se
 ValidRrsig return; the guard set of the one Ok((Secure, ttl)) in verify_rrset_with_dnskey; key
 filtering in verify_rrsig_with_keys; TTL provenance; validation-cache key and expiry guard."""
 import re
+import helpers
 import core
 from api import shorten, writers
 
@@ -236,3 +237,6 @@ def run(cx):
         cx.check('C06.S2', len(caps) == 1 and len(stores) == 1 and all('Result::map(' in h_.term for h_ in hits), vg.path, 'ret', 'hit-ttl-capped-by-the-entry-remaining-lifetime',
                  f'{len(caps)} caps, {len(stores)} stores; hit = ' + '; '.join(h_.term[:120] for h_ in hits), hits[0].loc if hits else '')
         cx.guard('C06.S2', hits, {'entry-not-expired': r'^lt:Instant\(Instant::now\(\),' + ENTRY + r'\.0\)$'}, fn=vg)
+
+    # ---------------------------------------------------------------- H helper semantics the guards above rely on (rules/helpers.py)
+    helpers.check(cx, 'C06.H', ['DNSKEY::zone_key', 'DNSKEY::revoke', 'Proof::is_secure', 'SerialNumber::partial_cmp', 'LowerName::num_labels'])
